@@ -89,6 +89,7 @@ class Model:
         self.rep = 'A'
         self.okrep = 'A'
         self.dead_seqs = set()
+        self.executing = []          # ids of the expectations whose actions are running (outermost first)
         self.deferred = {}           # k -> operation that a side effect in mode 6 will carry out (once)
         self.illegal = None          # set when a deferred operation cannot be carried out in the state it meets
         self.husks = set()           # ids of sequence objects that were moved from (only destruction / assignment is legal)
@@ -175,7 +176,8 @@ class Model:
         """can this deferred operation be carried out right now, from inside a side effect of `handler`?"""
         if dop[0] == 'rmexp':
             x = self.exps.get(dop[1])
-            return x is not None and x.id != handler.id
+            # not the expectation whose side effect this is, nor one further out whose actions are still running
+            return x is not None and x.id != handler.id and x.id not in self.executing
         if dop[0] == 'exp':
             _, e, shape, slot, o, params = dop
             if e in self.exps or o not in self.objs:
@@ -608,6 +610,7 @@ class Model:
         a0 = args[0]
         tr = self.tracers[-1] if self.tracers else None
         result = None
+        self.executing.append(e.id)
         try:
             for i in range(s['ns']):
                 pred.clauses.append((e.id, 'S', i, a0))
@@ -638,10 +641,13 @@ class Model:
                 if mode == 2 or (mode == 3 and a0 > 0):
                     pred.clauses.append(('N{',))
                     pred.trig.add('nested_call')
-                    if e.p['nobj'] == o and fn == 'v':
-                        pred.trig.add('recursive_call')
                     narg = e.p.get('narg', 0) if mode == 2 else a0 - 1
-                    r = self.do_call(pred, e.p['nobj'], 'v', (narg,), nested=True)
+                    nfn = 'f' if (mode == 3 and e.p.get('nfn') == 1) else 'v'
+                    if e.p['nobj'] == o and fn == nfn:
+                        pred.trig.add('recursive_call')
+                    if nfn == 'f':
+                        pred.trig.add('recursion_into_value_function')
+                    r = self.do_call(pred, e.p['nobj'], nfn, (narg,), nested=True)
                     pred.clauses.append(('N}',))
                     if r[0] in ('exc', 'fatal'):
                         result = r
@@ -667,6 +673,7 @@ class Model:
                 pred.trig.add('throws')
             return result
         finally:
+            self.executing.pop()
             if tr is not None:
                 pred.trace.append((tr[0], tr[1], e.id, fn, tuple(args), result))
                 pred.trig.add('traced')
@@ -702,6 +709,7 @@ class Model:
         m.dead_seqs = set(self.dead_seqs)
         m.husks = set(self.husks)
         m.deferred = dict(self.deferred)
+        m.executing = list(self.executing)
         m.illegal = self.illegal
         m.tomb = self.tomb
         return m
